@@ -557,7 +557,7 @@ example (rnd : Rand) (input : Bytes) := C13_untouched_pass_encrypt toyPrims rnd 
 theorem keygen_badName (rnd : Rand) (input : Bytes) :
     runKeyGen toyPrims rnd (worldOut input) (some (str "kr")) true = fail (worldOut input) .badName := by
   have hr : readName (worldOut input) = some [] := by
-    have : utf8Decode (worldOut input).stdin = some [] := utf8Decode_utf8 []
+    have : utf8Decode (firstLine (worldOut input).stdin) = some [] := utf8Decode_utf8 []
     simp only [readName, this]
     rfl
   unfold runKeyGen
